@@ -56,19 +56,22 @@ def reach(node):
 
 def fresh_answer(node, variant=0):
     """answers of an uncached, unfrozen rebuild of the same composition"""
+    convertible = not any(getattr(n, "_is_frozen", False) for n in reach(node))  # asked of the real node or not
     c = copy.deepcopy(node)
     c.unfreeze()
-    return answer(c, variant)
+    return answer(c, variant, convertible)
 
 
-def answer(node, variant=0):
+def answer(node, variant=0, convertible=None):
     base = (node.prior_count, tuple(tuple(map(str, p)) for p in node.paths), len(node.unique_prior_tuples))
     if not variant:
         return base
-    return base + (type_answers(node, variant),)
+    if convertible is None:
+        convertible = not any(getattr(n, "_is_frozen", False) for n in reach(node))
+    return base + (type_answers(node, variant, convertible),)
 
 
-def type_answers(node, variant):
+def type_answers(node, variant, convertible=True):
     """the type queries of a model (models_with_type / has / has_model / has_instance / is_only_model /
     attribute_tuples_with_type) with both values of their keyword arguments; `variant` fixes the order
     in which they are asked (on a frozen model the order must not matter), the answers are returned
@@ -102,12 +105,29 @@ def type_answers(node, variant):
         except Exception as e:  # noqa
             r = "raised:" + type(e).__name__
         out.append((q, c.__name__, z, r))
+    if variant % 3 == 0:
+        # a model composed from an object holding this one (conversion of instances / containers to models)
+        if not convertible:
+            r = "not-asked-while-frozen"
+        else:
+            try:
+                built = af.AbstractPriorModel.from_instance([node])
+                r = (built.prior_count, tuple(tuple(map(str, p)) for p in built.paths))
+            except Exception as e:  # noqa
+                r = "raised:" + type(e).__name__
+        out.append(("from_instance([model])", "", None, r))
     return tuple(sorted(out, key=lambda t: (t[0], t[1], str(t[2]))))
 
 
 def modifiable(node):
     if isinstance(node, Model) and not isinstance(node, (CompoundPrior, ModifiedPrior)):
         names = [a for a in node.constructor_argument_names if isinstance(node.__dict__.get(a), (Prior, float))]
+        # members of a tuple argument, assigned through the `name_i` form
+        from autofit.mapper.prior.tuple_prior import TuplePrior
+        for a in node.constructor_argument_names:
+            tp = node.__dict__.get(a)
+            if isinstance(tp, TuplePrior) and isinstance(tp.__dict__.get(f"{a}_0"), (Prior, float)):
+                names.append(f"{a}_0")
         return names
     if isinstance(node, Collection):
         return ["__coll__"]
@@ -124,7 +144,10 @@ def do_modify(rng, node):
         else:
             setattr(node, key, af.UniformPrior(0.0, 1.0))
         return
-    cur = node.__dict__[name]
+    if name not in node.__dict__:  # a tuple member: `pos_0` lives in the tuple prior `pos`
+        cur = node.__dict__[name.rsplit("_", 1)[0]].__dict__[name]
+    else:
+        cur = node.__dict__[name]
     setattr(node, name, 1.5 if isinstance(cur, Prior) else af.UniformPrior(0.0, 1.0))
 
 
@@ -184,7 +207,7 @@ def one_case(ctx, progs, label="gen", script=None):
                 if cands:
                     ops.append(["modify", rng.choice(cands)])
             elif r < 0.94:
-                ops.append(["failing", rng.choice(root_ix), rng.randrange(3)])
+                ops.append(["failing", rng.choice(root_ix), rng.randrange(4)])
             else:
                 ops.append(["pass", tgt])
 
@@ -224,10 +247,14 @@ def one_case(ctx, progs, label="gen", script=None):
                     node.paths
                 elif extra == 1:
                     node.has_instance("not a type")  # a user error inside the recursive walk
-                else:
+                elif extra == 2:
                     node.attribute_tuples_with_type(["not", "a", "type"])
+                else:
+                    # a conversion that reaches a frozen model fails while replacing its place-holders
+                    af.AbstractPriorModel.from_instance([node])
+                    af.ModelInstance({"held": node}).as_model()
                 real.append("no-failure")
-            except (RuntimeError, TypeError):
+            except (RuntimeError, TypeError, AssertionError):
                 real.append("done")
             except Exception as e:
                 real.append("raised:" + type(e).__name__)
